@@ -1565,6 +1565,8 @@ func TestVerifC16(t *testing.T) {
 	c16PrepareStreams(t, out, rnd)
 	// round 6: the percent-encoding layers of the DoH request target
 	c16TargetStreams(out, rnd)
+	// round 8: the key of the hand-over cache, RequestIDs set directly
+	c16KeyStreams(t, out, rnd)
 	// round 4: histories of requests and reconfigurations on a running server
 	c16hStreams(t, out, rnd)
 }
